@@ -86,11 +86,23 @@ func c11Run(w *W) {
 	var listeners []mangos.Listener
 	openCtx := 0
 	extraPeers := 0
+	hookN := 0
 	s.SetPipeEventHook(func(ev mangos.PipeEvent, p mangos.Pipe) {
 		if ev == mangos.PipeEventAttached {
 			mu.Lock()
 			pipes = append(pipes, p)
 			mu.Unlock()
+		}
+		if ev == mangos.PipeEventAttaching {
+			// an application callback that takes a moment now and then: the
+			// accept loop that runs it is away from Accept meanwhile
+			mu.Lock()
+			hookN++
+			slow := hookN%3 == 0
+			mu.Unlock()
+			if slow {
+				simrt.Sleep(300 * time.Microsecond)
+			}
 		}
 	})
 	laddr := w.Addr(tran)
@@ -308,7 +320,15 @@ func c11Run(w *W) {
 						ps := w.Sock(peerKind[kind])
 						_ = ps.SetOption(mangos.OptionRecvDeadline, 2*time.Millisecond)
 						_ = ps.SetOption(mangos.OptionSendDeadline, 2*time.Millisecond)
-						_ = ps.DialOptions(laddr, map[string]interface{}{mangos.OptionDialAsynch: false})
+						// (any of the socket's listeners: inproc waiters of different
+						// addresses share one condition variable)
+						mu.Lock()
+						target := laddr
+						if n := len(listeners); n > 0 {
+							target = listeners[op.b%n].Address()
+						}
+						mu.Unlock()
+						_ = ps.DialOptions(target, map[string]interface{}{mangos.OptionDialAsynch: false})
 						if op.a%2 == 0 {
 							_ = ps.Send([]byte("hello"))
 						}
@@ -350,6 +370,89 @@ func c11Run(w *W) {
 }
 
 func init() {
-	register(&Scenario{Name: "concurrent-api", Prop: "C11", Horizon: time.Hour, Run: c11Run})
+	register(&Scenario{Name: "concurrent-api", Prop: "C11", Horizon: time.Hour, Weight: 4, Run: c11Run})
 	register(&Scenario{Name: "concurrent-api-race", Prop: "C11R", Engine: "F", Horizon: time.Hour, Run: c11Run})
+}
+
+// c11InprocTwo: two inproc addresses. The accept loop of address A is away for
+// a long time (a slow Attaching callback) with a dialer waiting for it; the
+// listener of address B is healthy. inproc keeps the waiters of all addresses
+// on one condition variable: dials to B must not be held up by A's state -
+// whoever is woken, nobody may be left waiting for a listener that sits in
+// Accept.
+func c11InprocTwo(w *W) {
+	kind := []string{"bus", "pull", "rep", "star", "sub"}[w.Choose(simrt.SShape, 5)]
+	w.SetShape("kind", kind)
+	w.SetShape("tran", "inproc")
+	var all []mangos.Socket
+	defer func() {
+		for _, s := range all {
+			s.Close()
+		}
+	}()
+	const stall = 10 * time.Second
+	addrs := []string{w.Addr("inproc"), w.Addr("inproc")}
+	for ai, a := range addrs {
+		ai := ai
+		l := w.Sock(kind)
+		all = append(all, l)
+		n := 0
+		l.SetPipeEventHook(func(ev mangos.PipeEvent, p mangos.Pipe) {
+			if ev == mangos.PipeEventAttaching && ai == 0 {
+				n++
+				if n == 1 {
+					simrt.Sleep(stall) // A's accept loop is away from Accept
+				}
+			}
+		})
+		if err := l.Listen(a); err != nil {
+			w.Failf("HARNESS/listen", "%v", err)
+			return
+		}
+	}
+	dial := func(i int, a string) *Call {
+		d := w.Sock(peerKind[kind])
+		all = append(all, d)
+		return w.Do(fmt.Sprintf("dialer%d.Dial(%s)", i, a), func() (interface{}, error) {
+			return nil, d.DialOptions(a, map[string]interface{}{mangos.OptionDialAsynch: false})
+		})
+	}
+	x1 := dial(0, addrs[0])
+	w.Settle()
+	x2 := dial(1, addrs[0]) // waits: A is registered but nobody is in Accept
+	w.Settle()
+	if !x1.Returned() || x2.Returned() {
+		return // (not the situation this scenario is about)
+	}
+	// several dials to the healthy address, back to back
+	nb := 2 + w.Choose(simrt.SProg, 3)
+	var ys []*Call
+	for i := 0; i < nb; i++ {
+		ys = append(ys, dial(2+i, addrs[1]))
+		for y := w.Choose(simrt.SProg, 12); y > 0; y-- {
+			simrt.Yield()
+		}
+	}
+	w.Sleep(time.Second)
+	w.Settle()
+	for _, c := range ys {
+		if !c.Returned() {
+			w.WedgeCheck("C11")
+			w.Failf("C11/call-never-returns", "%s: this listener is open and its accept loop is in Accept; another address's accept loop is busy in a callback (with a dialer waiting for it); the synchronous Dial has not returned after 1s%s", c.Label, w.BlockedReport())
+			return
+		}
+	}
+	w.Sleep(stall)
+	w.Settle()
+	if !x2.Returned() {
+		w.WedgeCheck("C11")
+		w.Failf("C11/call-never-returns", "%s: the slow callback of its listener returned %v ago, the accept loop is back in Accept, the Dial is still waiting%s", x2.Label, time.Second, w.BlockedReport())
+		return
+	}
+	w.Probe("inproc-two-addresses-all-dials-returned")
+	w.Delivery += 2 + len(ys)
+}
+
+func init() {
+	register(&Scenario{Name: "inproc-two-addresses", Prop: "C11", Horizon: time.Hour, Weight: 1, Run: c11InprocTwo})
 }
